@@ -144,8 +144,25 @@ ATTR_PUT = {"self.size": "RSize", "self._seek_position": "RSeek"}
 ATTR_MOD = {"self._size": "RSize", "self.size": "RSize", "self._seek_position": "RSeek"}
 # expressions assumed to have one stable truth value during one call (listed as assumptions)
 STABLE_EXPRS = {"sys.stdout.isatty()"}
-# harmless statements
-PURE_BUILTINS = {"isinstance"}
+# names of the tracked low-level API: they may only occur as the callee of a call matched by
+# the table; an untracked helper of the same module that mentions them is refused
+SENSITIVE_ATTR_OF = {"termios"}                       # any termios.<x>
+SENSITIVE_NAMES = {"HIDE_CURSOR", "SHOW_CURSOR", "tcgetattr", "tcsetattr", "tcdrain"}
+SENSITIVE_STORES = {"_seek_position", "_size", "size"}  # self.<x> = ...
+
+
+def sensitive_mentions(fn) -> list[str]:
+    """Mentions of the tracked low-level API inside an (untranslated) function."""
+    out = []
+    for n in ast.walk(fn):
+        if isinstance(n, ast.Attribute) and isinstance(n.value, ast.Name) and n.value.id in SENSITIVE_ATTR_OF:
+            out.append(f"{n.value.id}.{n.attr} (line {n.lineno})")
+        elif isinstance(n, ast.Name) and n.id in SENSITIVE_NAMES:
+            out.append(f"{n.id} (line {n.lineno})")
+        elif isinstance(n, ast.Attribute) and isinstance(n.ctx, ast.Store) and n.attr in SENSITIVE_STORES \
+                and isinstance(n.value, ast.Name) and n.value.id == "self":
+            out.append(f"self.{n.attr} = ... (line {n.lineno})")
+    return out
 
 
 # --------------------------------------------------------------------------- source access
@@ -176,6 +193,19 @@ class Module:
         for node in self.tree.body:
             for t in assigned_names(node):
                 self.bindings.setdefault(t, set()).add("assigned at module level")
+        for name, srcs in self.bindings.items():
+            for s in srcs:
+                if s.startswith("from termios import") or (s.startswith("import termios") and name != "termios"):
+                    raise Unsupported(f"{self.path}: `{s}` binds part of the tracked API to the name `{name}`")
+        # helpers an untracked call may reach: module-level functions and methods, by name
+        self.helpers: dict[str, list] = {}
+        for node in self.tree.body:
+            if isinstance(node, ast.FunctionDef):
+                self.helpers.setdefault(node.name, []).append(node)
+            elif isinstance(node, ast.ClassDef):
+                for m in node.body:
+                    if isinstance(m, ast.FunctionDef):
+                        self.helpers.setdefault("." + m.name, []).append(m)
         for name, want in EXPECT_IMPORTS.get(rel, {}).items():
             got = self.bindings.get(name, set())
             if got != {want}:
@@ -614,7 +644,8 @@ class Frame:
         self.depth = depth
         self.handler_kind = None
         for name, why in info.flag_why.items():
-            root.untracked_flags[prefix + name] = why
+            if name not in info.free_flags:
+                root.untracked_flags[prefix + name] = why
         for s in info.expr_flags:
             if s in STABLE_EXPRS:
                 root.assumed.add(s)
@@ -655,6 +686,11 @@ class Frame:
         I = self.info
         if isinstance(e, ast.Constant):
             return []
+        if isinstance(e, ast.Attribute) and isinstance(e.value, ast.Name) and e.value.id in SENSITIVE_ATTR_OF \
+                and e.attr.startswith("tc"):
+            self.fail(e, f"`{ast.unparse(e)}` used other than as the callee of a tracked call (aliasing a tracked function)")
+        if isinstance(e, ast.Name) and e.id in ("tcgetattr", "tcsetattr", "tcdrain"):
+            self.fail(e, f"bare `{e.id}`")
         if isinstance(e, ast.Name):
             if e.id in I.tsnaps and isinstance(e.ctx, ast.Load):
                 # any use other than as tcsetattr's argument may change the list
@@ -798,6 +834,17 @@ class Frame:
                 and e.func.attr == "close":
             act = ("op", "CloseIter")
         if act is None:
+            # an untracked helper of this module must not touch the tracked low-level API itself
+            helper = None
+            if isinstance(e.func, ast.Name) and e.func.id not in I.assigns and e.func.id not in I.params:
+                helper = I.mod.helpers.get(e.func.id)
+            elif isinstance(e.func, ast.Attribute) and isinstance(e.func.value, ast.Name) and e.func.value.id in ("self", "cls"):
+                helper = I.mod.helpers.get("." + e.func.attr)
+            for h in helper or []:
+                m = sensitive_mentions(h)
+                if m:
+                    self.fail(e, f"untracked helper `{f}` (defined at line {h.lineno}) uses the tracked API: {', '.join(m[:3])}; "
+                                 "it must be added to the translator's tables")
             # untracked call: evaluate callee expression and arguments, then the call itself
             pre = []
             if isinstance(e.func, ast.Attribute):
